@@ -38,7 +38,7 @@ META = {
                 "composite type of the protocol (table regenerated from the struct definitions and proved equal to the specification's, "
                 "Tie_Composites) and every admissible field vector, the model of the derive macros' serializer (pending nulls, trailing-field "
                 "elision, defaults) followed by the model of DescribedAccess / the derived visitor returns the field vector; both models are "
-                "run against to_vec / from_slice::<T> on 28 types every run.",
+                "run against to_vec / from_slice::<T> on 28 types every run. Messages: C03_message_roundtrip - for every message with any subset of the optional sections and a body of one amqp-value section or a batch of data / amqp-sequence sections, the model of the message deserializer (section dispatch by descriptor, later section wins, batches as TransparentVecAccess reads them, at most seven rounds) applied to the serializer model's bytes returns the same sections; run against the real message codec every run (msg sub).",
         "design_ref": "DESIGN.md section 4, C03",
         "note": "Trusted: Coq kernel, extraction, translator; model tied to the code on exercised inputs. Known finding: arrays whose elements "
                 "are null/list/map/array/described do not round-trip (witness theorem in Props/C03.v). Typed layer: list-encoded composites proved at the level of "
@@ -231,7 +231,7 @@ META = {
                 "the frames of the next message arrive and the application accepts, over and over, the deliveries returned are exactly the messages sent, once each, in order, no "
                 "delivery is refused for lack of credit and the link is idle again after every round (C01_stream_intact: composes the cut, the reassembly and the credit replenishment). The two models are tied to the code by the C07 (split_transfer against model and encoder) and C10 (Receiver "
                 "against model) correspondences, re-run here; the composed real system (client, listener, both directions, re-chunked byte stream, generated "
-                "configurations) is checked end to end by a direct oracle every run. On the wire: C01_wire_transfer_read_back - the four transfer performatives of encode_transfer built with the typed-layer model (as given / more / cleared / cleared+more), laid out as C06 proves, are read by the model of the receiving FrameDecoder frame by frame as transfer performatives with exactly the expected fields, the payload parts concatenating to the payload; both ends are run against the real Transport and FrameDecoder every run (fdec xfer cases). C01_wire_to_delivery closes the chain for a delivery that does not fit a frame: sending transport -> bytes of every frame -> receiving FrameDecoder -> the fields the receiving link reads -> receiving link with credit: nothing before the last frame, then exactly one delivery with the payload, the delivery-id and the tag of the first frame.",
+                "configurations) is checked end to end by a direct oracle every run. On the wire: C01_wire_transfer_read_back - the four transfer performatives of encode_transfer built with the typed-layer model (as given / more / cleared / cleared+more), laid out as C06 proves, are read by the model of the receiving FrameDecoder frame by frame as transfer performatives with exactly the expected fields, the payload parts concatenating to the payload; both ends are run against the real Transport and FrameDecoder every run (fdec xfer cases). C01_wire_to_delivery closes the chain for a delivery that does not fit a frame: sending transport -> bytes of every frame -> receiving FrameDecoder -> the fields the receiving link reads -> receiving link with credit: nothing before the last frame, then exactly one delivery with the payload, the delivery-id and the tag of the first frame. C01_message_sections_intact is the last link: the payload handed over decodes to the sections of the message that was encoded (message codec model, run against the real codec every run).",
         "design_ref": "DESIGN.md section 4, C01",
         "note": "Trusted: Coq kernel, extraction, the harnesses. Fixed defect: transfer-ids were assigned per delivery, not per frame: sends stalled after a message "
                 "larger than max-frame-size (83a401a). Known findings: deadlock with channel buffers of 1-2.",
